@@ -73,6 +73,7 @@ def amin(
         poly, graded=options["sort_graded"], reverse=options["sort_reverse"]
     )
     indices = numpy.amin(proxy, axis=axis, **kwargs)
-    out = poly[numpy.isin(proxy, indices)]
-    out = out[numpy.argsort(indices.ravel())]
+    # proxy is a permutation: look up where each selected rank is located.
+    position = numpy.argsort(proxy.ravel())
+    out = poly.ravel()[position[indices.ravel()]]
     return numpoly.reshape(out, indices.shape)
